@@ -63,7 +63,7 @@ def gen_case(rng, n_ops, faults=False, crashes=False):
         s, su, lvl, _ = rng.choice(sess)
         if me_on and rng.chance(1, 9):
             o = rng.choice([f"sub {s} me", f"sub {s} me", f"sub {s} me", f"leave {s} me", f"leave {s} me", f"unload {su}", f"unload {su}",
-                            f"pub {s} me CM", f"get {s} me desc", f"leave {s} me unsub=1", f"drop {s}", "fg S5"])
+                            f"pub {s} me CM", f"get {s} me desc", f"get {s} me sub", f"get {s} me sub", f"leave {s} me unsub=1", f"drop {s}", "fg S5"])
             if faults and o.split(" ")[0] in ("sub", "leave", "get") and rng.chance(1, 6):
                 out.append(f"fail {1 + rng.below(3)}")      # a store failure, consumed by the request which follows
             out.append(o)
@@ -200,6 +200,15 @@ def gen_case(rng, n_ops, faults=False, crashes=False):
             att = {}
     if me_on and rng.chance(1, 2):
         out.extend(settle(users, ntop))
+    if any(o.startswith("sess S8 ") for o in out):
+        # after a restart the sessions stand for new connections, logged in again - which an account that is gone cannot do: its
+        # session goes straight back to being logged out
+        fixed = []
+        for o in out:
+            fixed.append(o)
+            if o == "restart":
+                fixed.append("sub S8 me")
+        out = fixed
     return out
 
 
@@ -629,9 +638,9 @@ WORLD_TRUSTED = [
     "history monitors (vlib/worldmon.py) decide the property on the implementation's own output when the tie is broken",
 ]
 WORLD_ASSUMPTIONS = [
-    "group, channel-enabled and peer-to-peer topics and the users' `me` topics ({sub}, {leave}, {pub}, {get desc}, idle unload, and everything "
-    "the other topics and users tell a user there; not the other requests a `me` topic serves: credentials, tags, {get sub} of the contact "
-    "list, user-agent changes; no fnd/sys), one server node, requests processed one at a time in arrival order, the hub's queue of "
+    "group, channel-enabled and peer-to-peer topics and the users' `me` topics ({sub}, {leave}, {pub}, {get desc}, {get sub} - the list of contacts "
+    "with their online flags -, idle unload, and everything the other topics and users tell a user there; not the other requests a `me` topic "
+    "serves: credentials, tags, {set}, {del}, user-agent changes; no fnd/sys), one server node, requests processed one at a time in arrival order, the hub's queue of "
     "notifications between topics drained after every request; on-behalf-of (root `as=`) requests are exercised on plain group "
     "topics only; on a channel-enabled topic two users come as readers (`chn` spelling) and two as subscribers, one request in twenty "
     "under the other spelling",
@@ -658,7 +667,7 @@ def scenario_me(rng, k):
                  f"unload {ua}", f"unload {ub}", f"unload P:{':'.join(sorted([ua, ub]))}", f"pub {a} {ub} CP", f"note {b} {ua} read 1",
                  f"setsub {a} {ub} mode=JRW", f"setsub {a} {ub} mode=JRWPA", f"setsub {b} {ua} user={ua} mode=JRW", f"setsub {b} {ua} user={ua} mode=JRWPA",
                  f"leave {a} {ub} unsub=1", f"deltopic {b} {ua}", f"drop {a}", f"drop {b}", "fg S5", "sub S5 me", "sub S4 me", f"setdesc {a} {ub} priv=pvM",
-                 f"delmsg {a} {ub} 1:2", f"delmsg {b} {ua} 1:2 hard=1"]
+                 f"delmsg {a} {ub} 1:2", f"delmsg {b} {ua} 1:2 hard=1", f"get {a} me sub", f"get {b} me sub"]
         out.append(f"sub {a} {ub}")
         for _ in range(5 + rng.below(10)):
             out.append(rng.choice(steps))
@@ -679,7 +688,7 @@ def scenario_me(rng, k):
                       f"delmsg {m} {T} 1:{2 + rng.below(3)}", f"setdesc {m} {T} priv=pvG"]
         steps += [f"pub {owner} {T} CG", f"leave {owner} {T}", f"sub {owner} {T}", f"unload {T}", f"unload {T}", f"setdesc {owner} {T} pub=pbH",
                   f"delmsg {owner} {T} 1:2 hard=1", f"sub S4 {T}", "sub S5 me", f"sub S5 {T}", "fg S5", f"deltopic {owner} {T}", f"sub {owner} me", f"unload {ou}",
-                  f"note {owner} {T} read 1"]
+                  f"note {owner} {T} read 1", f"get {owner} me sub", f"get {mem[0]} me sub", f"get {mem[1]} me sub"]
         for _ in range(6 + rng.below(12)):
             out.append(rng.choice(steps))
             _maybe_restart(rng, out, 30)
@@ -692,7 +701,7 @@ def scenario_me(rng, k):
                  "pub S1 U2 CY", "sub S4 me", "leave S4 me", "leave S1 me", "sub S1 me", "sub S2 me", "leave S2 me", "unload U1", "unload U2", "unload T1",
                  "unload P:U1:U2", "drop S1", "drop S2", "fg S5", "sub S5 me", "sub S5 " + rd, "note S2 " + rd + " read 1", "setsub S2 " + rd + " mode=JR",
                  "setsub S2 " + rd + " mode=JRP", "setsub S1 T1 user=U3 mode=JRWP", "setdesc S1 T1 pub=pbZ", "deltopic S2 " + rd, "deltopic S1 T1", "pub S3 me CM",
-                 "get S1 me desc", "leave S3 me unsub=1", "setsub S2 U1 mode=JRW", "setsub S2 U1 mode=JRWPA"]
+                 "get S1 me desc", "get S1 me sub", "get S2 me sub", "leave S3 me unsub=1", "setsub S2 U1 mode=JRW", "setsub S2 U1 mode=JRWPA"]
         for _ in range(6 + rng.below(14)):
             out.append(rng.choice(steps))
             _maybe_restart(rng, out, 30)
